@@ -9,7 +9,7 @@ use refimpl::ntlm;
 use serde::{Deserialize, Serialize};
 
 pub const LEVEL: &str = "fault_enumeration";
-pub const RULE: &str = "case = (credential set and connector configuration with NLA on, server certificate key in {RSA-2048 CA-signed, RSA-2048, RSA-3072, P-256}, reply strategy for the final CredSSP round). Strategies: honest; every single-bit flip of the honest TSRequest (bitflips section: every bit for the P-256 key and every third bit for RSA-2048 in quick, every bit for all four keys in thorough); key + k for k in {0, 2, 255, 256, 65536, ...}, key - 1, big-endian + 1, + 1 on the last byte; sealed under an unknown session key; sealed with the client-to-server keys; wrong signing key only; key + 1 of another certificate; the client's own token reflected; every truncation length; bytes appended inside the token / after the DER; BER re-encoding; advanced cipher state; wrong sequence number; garbage; random token. Each reply is classified by the reference server itself (lenient decode + unseal with the true keys): if it still yields key + 1 under a valid signature nothing is asserted; otherwise Connector::connect must return Err and the server, reading to EOF, must receive zero application bytes after the AUTHENTICATE message. For the honest reply the next message must be a TSRequest whose authInfo unseals. Non-trivial = the handshake reached the final round and the reply is not 'still honest'; distinct by hash of the case.";
+pub const RULE: &str = "case = (credential set and connector configuration with NLA on, server certificate key in {RSA-2048 CA-signed, RSA-2048, RSA-3072, P-256}, reply strategy for the final CredSSP round). Strategies: honest; every single-bit flip of the honest TSRequest (bitflips section: every bit for the P-256 key and every third bit for RSA-2048 in quick, every bit for all four keys in thorough); key + k for k in {0, 2, 255, 256, 65536, ...}, key - 1, big-endian + 1, + 1 on the last byte; sealed under an unknown session key; sealed with the client-to-server keys; wrong signing key only; key + 1 of another certificate; the client's own token reflected; every truncation length; bytes appended inside the token / after the DER; BER re-encoding; advanced cipher state; wrong sequence number; garbage; random token; key + 1 followed or preceded by extra bytes under a valid seal; constant ('dummy') checksum; ciphertext of another certificate's key + 1 obtained by xor with a zeroed checksum. One case in five (and a list in the enumerated section) uses a CHALLENGE that lacks some of the flags the client asked for (SIGN, SEAL, KEY_EXCH, ALWAYS_SIGN, ESS, 128 ...): the client may refuse it early, but must not release credentials without the proof. Each reply is classified by the reference server itself (lenient decode + unseal with the true keys): if it still yields key + 1 under a valid signature nothing is asserted; otherwise Connector::connect must return Err and the server, reading to EOF, must receive zero application bytes after the AUTHENTICATE message. For the honest reply the next message must be a TSRequest whose authInfo unseals. Non-trivial = the handshake reached the final round and the reply is not 'still honest'; distinct by hash of the case.";
 
 #[derive(Serialize, Deserialize, Hash, Clone, Debug)]
 pub struct Case {
@@ -40,7 +40,13 @@ pub fn run(c: &Case) -> Outcome {
         FinalReply::WrongSeq(_) => "wrong-seq",
         FinalReply::Garbage(_) => "garbage",
         FinalReply::RandomToken(_) => "random-token",
+        FinalReply::PlainSuffix(_) | FinalReply::PlainPrefix(_) => "padded-value",
+        FinalReply::ConstChecksum(_) | FinalReply::RelayedXor => "dummy-signature",
     };
+    let std_flags = c.base.challenge.flags & ntlm::MANDATORY == ntlm::MANDATORY;
+    if !std_flags {
+        out.label("reduced-flags");
+    }
     out.label(class);
     if run.client_timeout || run.report.timeout {
         out.fail("inconclusive:timeout", "a socket timeout hit; not counted as a violation");
@@ -51,6 +57,14 @@ pub fn run(c: &Case) -> Outcome {
         return out;
     }
     let nla = &run.report.nla;
+    if !nla.reached_final && !std_flags {
+        // a CHALLENGE without one of the flags the client asked for: refusing it early is fine, nothing to assert
+        out.label("reduced-flags-not-reached");
+        if std::env::var_os("VERIF_DEBUG").is_some() {
+            eprintln!("not-reached missing={:#010x} verify={:?} negotiate={:?} notes={:?}", ntlm::MANDATORY & !c.base.challenge.flags, nla.verify_error, nla.negotiate_error, nla.notes);
+        }
+        return out;
+    }
     if !nla.reached_final {
         out.fail("inconclusive:final-round-not-reached", format!("the handshake did not reach the final CredSSP round (tls {} / negotiate {:?} / verify {:?}); this is C03/C15 territory", run.report.tls_established, nla.negotiate_error, nla.verify_error));
         return out;
@@ -59,7 +73,7 @@ pub fn run(c: &Case) -> Outcome {
     out.nontrivial(!nla.final_is_honest);
     if nla.final_is_honest {
         out.label("still-honest");
-        if honest_kind {
+        if honest_kind && std_flags {
             // the credentials must follow, and unseal
             match (&run.connect, &nla.credentials) {
                 (_, Some(Ok(_))) => {}
@@ -98,6 +112,7 @@ fn gen_base(s: &mut Src, identity: Option<u8>) -> C17Case {
     let mut challenge = gen_challenge(s, true);
     challenge.flags |= ntlm::NEG_UNICODE;
     let bits = s.u8();
+    let _ = &mut challenge;
     let cfg = ClientCfg {
         width: 800,
         height: 600,
@@ -113,12 +128,36 @@ fn gen_base(s: &mut Src, identity: Option<u8>) -> C17Case {
         nla: true,
         check_certificate: false,
     };
-    C17Case { cfg, identity: identity.unwrap_or_else(|| s.below(4) as u8), challenge, user_id: 1004 }
+    let identity = identity.unwrap_or_else(|| s.below(4) as u8);
+    // a server that does not echo every flag the client asked for (no signing, no sealing, no key exchange ...):
+    // whatever the client makes of it, it must not release credentials without the proof
+    if s.chance(56) {
+        for f in [ntlm::NEG_SIGN, ntlm::NEG_SEAL, ntlm::NEG_KEY_EXCH, ntlm::NEG_ALWAYS_SIGN, ntlm::NEG_ESS, ntlm::NEG_128, ntlm::NEG_NTLM, ntlm::NEG_TARGET_INFO] {
+            if s.chance(72) {
+                challenge.flags &= !f;
+            }
+        }
+    }
+    C17Case { cfg, identity, challenge, user_id: 1004 }
 }
 
 pub fn decode(s: &mut Src) -> Case {
     // the reply strategy is decoded first so that short choice strings still vary it
-    let reply = match s.below(20) {
+    let reply = match s.below(24) {
+        20 => {
+            let n = 1 + s.below(4);
+            let mut e = s.bytes(n);
+            if s.chance(64) {
+                e = vec![0; n];
+            }
+            FinalReply::PlainSuffix(e)
+        }
+        21 => {
+            let n = 1 + s.below(4);
+            FinalReply::PlainPrefix(s.bytes(n))
+        }
+        22 => FinalReply::ConstChecksum(s.pick(&[0u8, 0, 0, 0xFF, 1])),
+        23 => FinalReply::RelayedXor,
         0 => FinalReply::Honest,
         1 | 2 | 3 => FinalReply::BitFlip(s.u16() as u32),
         4 => FinalReply::Offset(s.pick(&[0u32, 2, 3, 255, 256, 257, 65536, 0x0100_0000, 0xFFFF_FFFF])),
@@ -173,6 +212,22 @@ fn sweep(tier: Tier, part: usize, parts: usize) -> impl Iterator<Item = Case> {
         }
         for k in [0u32, 2, 3, 255, 256, 257, 65535, 65536, 0x0100_0000, 0xFFFF_FFFF] {
             v.push(Case { base: base.clone(), reply: FinalReply::Offset(k) });
+        }
+        for r in [FinalReply::PlainSuffix(vec![1]), FinalReply::PlainSuffix(vec![0, 1]), FinalReply::PlainSuffix(vec![0xFF; 4]), FinalReply::PlainSuffix(vec![0]), FinalReply::PlainPrefix(vec![0]), FinalReply::PlainPrefix(vec![1, 0]), FinalReply::ConstChecksum(0), FinalReply::ConstChecksum(0xFF), FinalReply::RelayedXor] {
+            v.push(Case { base: base.clone(), reply: r.clone() });
+            // the same replies after a CHALLENGE that lacks one of the requested flags
+            for f in [ntlm::NEG_SIGN, ntlm::NEG_SEAL, ntlm::NEG_KEY_EXCH, ntlm::NEG_ALWAYS_SIGN, ntlm::NEG_ESS, ntlm::NEG_128, ntlm::NEG_SIGN | ntlm::NEG_SEAL | ntlm::NEG_ALWAYS_SIGN] {
+                let mut b = base.clone();
+                b.challenge.flags &= !f;
+                v.push(Case { base: b, reply: r.clone() });
+            }
+        }
+        for f in [ntlm::NEG_SIGN, ntlm::NEG_SEAL, ntlm::NEG_KEY_EXCH, ntlm::NEG_ALWAYS_SIGN, ntlm::NEG_ESS, ntlm::NEG_128] {
+            for r in [FinalReply::Honest, FinalReply::OtherCert, FinalReply::WrongSignKey, FinalReply::Reflect, FinalReply::Offset(0)] {
+                let mut b = base.clone();
+                b.challenge.flags &= !f;
+                v.push(Case { base: b, reply: r });
+            }
         }
         for r in [FinalReply::Honest, FinalReply::MinusOne, FinalReply::BigEndianPlusOne, FinalReply::LastBytePlusOne, FinalReply::WrongDirection, FinalReply::WrongSignKey, FinalReply::OtherCert, FinalReply::Reflect, FinalReply::WrongSeq(1), FinalReply::AdvancedRc4(0)] {
             v.push(Case { base: base.clone(), reply: r });
